@@ -224,7 +224,7 @@ fn spline_canaries(m: &mut Mon, sink: &mut Sink) {
 // ------------------------------------------------------------------------------------------ C06
 
 pub fn drive_linear(a: &Args, m: &mut Mon, sink: &mut Sink) {
-    m.floors(&["family:strictly_increasing", "family:repeated_abscissae", "family:out_of_order_runs", "family:epsilon_gaps", "family:large_offsets", "two_knots",
+    m.floors(&["family:strictly_increasing", "family:coordinates_near_f64_max", "family:repeated_abscissae", "family:out_of_order_runs", "family:epsilon_gaps", "family:large_offsets", "two_knots",
         "segments_checked", "narrow_segment_constant", "evaluations_checked", "very_long_knot_sets"]);
     linear_canaries(m, sink);
     let mut r = Rng::lane(a.seed, "C06", a.shard, 0);
@@ -240,7 +240,14 @@ pub fn drive_linear(a: &Args, m: &mut Mon, sink: &mut Sink) {
                 _ => r.usize(9, 50),
             }
         };
-        let (xs, fam): (Vec<f64>, &'static str) = match r.below(8) {
+        let (xs, fam): (Vec<f64>, &'static str) = match r.below(9) {
+            8 => {
+                // finite coordinates within a few binades of f64::MAX (sums of them overflow, the coordinates and
+                // their differences do not); the value-level oracle treats these magnitudes as out of its domain,
+                // what is observed here is that linear() returns at all
+                let mut x = r.uniform(1.0, 9.0) * 1e307;
+                ((0..nk.min(12)).map(|_| { let v = x; x += r.uniform(0.01, 0.1) * 1e307; v }).collect(), "coordinates_near_f64_max")
+            }
             0 | 1 => (abscissae(&mut r, nk).0, "strictly_increasing"),
             2 => {
                 let mut x = r.small_int(5);
@@ -273,7 +280,13 @@ pub fn drive_linear(a: &Args, m: &mut Mon, sink: &mut Sink) {
             }
         };
         let ysc = match r.below(3) { 0 => 1.0, 1 => 10f64.powf(r.uniform(-20.0, 20.0)), _ => 10f64.powf(r.uniform(-3.0, 3.0)) };
-        let ys: Vec<f64> = (0..nk).map(|_| match r.below(4) { 0 => r.small_int(5), 1 => 0.0, _ => r.uniform(-1.0, 1.0) } * ysc).collect();
+        let nk = xs.len();
+        let ys: Vec<f64> = if fam == "coordinates_near_f64_max" {
+            let sg = r.sign();
+            (0..nk).map(|_| sg * r.uniform(0.5, 1.7) * 1e308).collect()
+        } else {
+            (0..nk).map(|_| match r.below(4) { 0 => r.small_int(5), 1 => 0.0, _ => r.uniform(-1.0, 1.0) } * ysc).collect()
+        };
         let knots: Vec<Knot> = xs.iter().zip(ys.iter()).map(|(x, y)| Knot { x: *x, y: *y }).collect();
         m.eval();
         m.count(&format!("family:{}", fam));
